@@ -13,6 +13,12 @@ CLAIMED = {
         "DESIGN.md §4 C13"),
 }
 
+CLAIMED["C06"] = (
+    "symbolic execution of the transformed cif.py source over symbolic characters (SX engine: fork by re-execution, z3 decides every branch and the round-trip assertion), concrete replay through the unmodified classes; mapping behaviour by solver-driven case split of op sequences",
+    "Bounded model checking of the CIF text layer: the real serialize/deserialize code of CIFFile/CIFBlock/CIFCategory (AST-redirected only where CPython hard-wires str built-ins) is executed over strings whose characters are z3 variables (printable ASCII + tab + LF); for each path z3 shows the parsed table equals the written one or returns a value that is replayed on the unmodified classes. Bounds: value length <= 4 (thorough 5) single-row, <= 3 (4) in a 2x2 loop at every position, reserved words with symbolic neighbours; mapping op sequences of length 2 (3) on both flavours.",
+    "Trusted: the SStr model of Python str (differentially tested against CPython on every run), z3. Stubs: CIFColumn -> value holder, 3 numpy attributes in _serialize_looped -> shim (mask convention and real numpy path covered by cif_masks and by every replay). Outside: non-ASCII, values longer than the bound, more than one awkward cell per table, tables > 2x2. Two known findings (text-field content lines starting with ';' or with '_'/'loop_'/'data_') are listed in known_findings.json.",
+    "DESIGN.md §4 C06")
+
 NOT_APPLICABLE = {
     "C15": "float results of numpy/LAPACK (linalg solves, trigonometry, argmin over float images): no integer/string logic in front of the C boundary that a solver could reason about; an abstraction over the reals would verify a model of numpy, not the code (DESIGN §6)",
     "C16": "optimality/properness come from np.linalg.svd/det (LAPACK behind FFI) on float32 data; no encodable source; z3 terms cannot pass astype(float32) (DESIGN §6)",
